@@ -21,7 +21,7 @@ LEVEL_NOTE = ("Relative to idealised primitives (Section hypotheses, never axiom
               "non-listed certificate gets an error, a listed certificate whose key does not open the wrapped key gets that error (that a wrong "
               "SM2/RSA key fails to open is C02 / an RSA property, tested here, not proved). The container models (P7Model, "
               "MacModel) are hand-written from pkcs7.go / pkcs12.go; the model of Verify is extracted and compared with the real Verify on "
-              "genuine, tampered and corrupted signed data (pieces read through a hook), the envelope and MAC-gate models are tied only by the "
+              "genuine, tampered and corrupted signed data (pieces read through a hook), the extracted Decrypt model is compared on rewritten recipient lists (issuer / serial swapped, duplicates, zero recipients, foreign or garbage wrapped keys), the MAC-gate and whole-container PKCS#12 models are tied only by the "
               "black-box runs; the "
               "PKCS#12 primitive models (RC2, BMPString, KDF with a toy hash) are extracted and compared with the real functions. Combinations the "
               "property names that the API does not carry through are explicit case classes whose predicate demands what the property "
@@ -33,7 +33,7 @@ LEVEL_NOTE = ("Relative to idealised primitives (Section hypotheses, never axiom
               "representable as BMPString). Enveloped data with DES-CBC carries no integrity: corrupted ciphertext may decrypt to other "
               "content (recorded; the property does not promise otherwise).")
 TRUSTED_BASE = [
-    "models coq/P7/P7Model.v, coq/P12/MacModel.v (P7Model.Verify: extracted and run on the pieces the library decoded, compared with the real Verify, op VER; envelope logic and MAC gate: tied by the black-box runs only), coq/P12/PbkdfModel.v, coq/P12/BmpModel.v, coq/P12/RC2Model.v (tied by differential runs of the extracted models, leg c17m), coq/Dec/ByteModels.v pad/unpad (tied by C18's differential run); all written by hand from the Go sources",
+    "models coq/P7/P7Model.v, coq/P12/MacModel.v (P7Model.Verify: extracted and run on the pieces the library decoded, compared with the real Verify, op VER; envelope recipient selection: extracted Decrypt compared with the real DecryptSM2 on rewritten recipient lists, op SEL; MAC gate / whole-container model: tied by the black-box runs only), coq/P12/PbkdfModel.v, coq/P12/BmpModel.v, coq/P12/RC2Model.v (tied by differential runs of the extracted models, leg c17m), coq/Dec/ByteModels.v pad/unpad (tied by C18's differential run); all written by hand from the Go sources",
     "extraction: ExtrOcamlBasic only; runner ocaml/p12/main.ml; the PKCS#12 KDF is compared with a 20-byte toy hash (Go twin in harness/cmd/c17m) because SHA-1 has no model here; hook files pkcs12/verif_p12_verif.go (bmpString, decodeBMPString, pbkdf) and x509/verif_decoders_verif.go (VerifP7Signers, VerifP7HashByName, VerifP7CheckSignature: the pieces Verify works on)",
     "translator targets 'pkcs7' (getHashForOID, getSignatureAlgorithmByHash, decrypt OID guard), 'rc2tables' (piTable), 'dec'",
     "Go driver harness/cmd/c17 (builds SM2 signed data with encoding/asn1 using copies of the structures of pkcs7.go; fixed test keys)",
@@ -128,6 +128,9 @@ def predicate(f, io):
                                   % (len(_unhex(f[3]).decode("utf-8")), len(_unhex(f[4]).decode("utf-8"))))
     if op == "PL":
         return (io[0] == "same"), "PKCS#12 round trip with a long password failed (%s)" % io[0]
+    if op == "SEL":
+        # recipient selection: decided by comparison with the extracted model of Decrypt; a different plaintext is a failure
+        return (io[0] in ("ok", "err")), "enveloped data with a rewritten recipient list decrypted to different content"
     if op == "VER":
         # signed-data verification logic: decided by comparison with the extracted model of Verify
         return (io[0] in ("ok", "err")), "Verify did not return"
